@@ -4,6 +4,7 @@ package actor
 
 import (
 	"context"
+	"errors"
 	"fmt"
 	"math/rand"
 	"runtime"
@@ -29,8 +30,9 @@ import (
 // hooks let the race detector witness missing happens-before edges.
 
 type c31Msg struct {
-	ID  int64
-	Ask bool
+	ID    int64
+	Ask   bool
+	Start int64 // the sender's call-start stamp
 }
 
 type c31Reply struct {
@@ -61,6 +63,7 @@ type c31Act struct {
 	recvs, ticks          atomic.Int64
 	lastRecvEnter         atomic.Int64
 	lastRecvExit          atomic.Int64
+	failed                atomic.Bool // OnDeactivate returned an injected error: the framework keeps the process and re-activates it in place
 	trigMu                sync.Mutex
 	trigs                 []string // every OnDeactivate call's trigger, in call order
 }
@@ -90,6 +93,7 @@ type c31Track struct {
 	dwellAct   int
 	longRecv   time.Duration // rare long handler (sleep), 0 = never
 	tick       time.Duration // >0: OnActivate registers an interval timer
+	deactErr   int           // >0: OnDeactivate of every deactErr-th activation returns an error
 }
 
 type c31Handled struct {
@@ -183,6 +187,7 @@ func c31Trigger(m *c31Mon) string {
 type c31Grain struct {
 	act   *c31Act
 	tr    *c31Track
+	mon   *c31Mon // the case that activated this instance (a straggling hook must not report into a later case)
 	plain int
 }
 
@@ -197,7 +202,7 @@ func (g *c31Grain) OnActivate(_ context.Context, props *GrainProps) error {
 	}
 	s := m.seq.Add(1)
 	m.actN.Add(1)
-	if old := g.act; old != nil && old.deactExit.Load() != 0 {
+	if old := g.act; old != nil && old.deactExit.Load() != 0 && !old.failed.Load() {
 		m.viol("instance-reused:"+old.trig(), map[string]any{"grain": tr.name, "previous_activation": old.No, "instance": old.Inst, "stack": verifrt.Stack()})
 	}
 	a := &c31Act{Name: tr.name, Inst: fmt.Sprintf("%p", g)}
@@ -210,7 +215,7 @@ func (g *c31Grain) OnActivate(_ context.Context, props *GrainProps) error {
 	}
 	tr.acts = append(tr.acts, a)
 	tr.mu.Unlock()
-	g.act, g.tr = a, tr
+	g.act, g.tr, g.mon = a, tr, m
 	g.plain++
 	if tr.tick > 0 {
 		_, _ = props.Schedule(&c31Tick{}, tr.tick)
@@ -222,7 +227,10 @@ func (g *c31Grain) OnActivate(_ context.Context, props *GrainProps) error {
 }
 
 func (g *c31Grain) OnReceive(gctx *GrainContext) {
-	m := c31Cur.Load()
+	m := g.mon
+	if m == nil {
+		m = c31Cur.Load()
+	}
 	msg, _ := gctx.Message().(*c31Msg)
 	respond := func(act int) {
 		switch {
@@ -256,7 +264,17 @@ func (g *c31Grain) OnReceive(gctx *GrainContext) {
 	}
 	switch a.state.Load() {
 	case c31Activating:
-		m.viol("receive-before-activate-exit", wit())
+		// how the message got there: a call that started after this OnActivate
+		// began was let through while the activation was still in progress; an
+		// older one was left in the mailbox of a process that is re-activated in place
+		how := "timer-tick"
+		if msg != nil {
+			how = "queued-before-activation"
+			if msg.Start > a.actEnter.Load() {
+				how = "sent-during-activation"
+			}
+		}
+		m.viol("receive-before-activate-exit:"+how, wit())
 	case c31Deactivating:
 		m.viol("deactivate-overlaps-receive:"+a.trig(), wit())
 	case c31Dead:
@@ -302,7 +320,10 @@ func (g *c31Grain) OnReceive(gctx *GrainContext) {
 }
 
 func (g *c31Grain) OnDeactivate(_ context.Context, _ *GrainProps) error {
-	m := c31Cur.Load()
+	m := g.mon
+	if m == nil {
+		m = c31Cur.Load()
+	}
 	if m == nil {
 		return nil
 	}
@@ -366,6 +387,10 @@ func (g *c31Grain) OnDeactivate(_ context.Context, _ *GrainProps) error {
 	if g.tr != nil {
 		g.tr.lastDeact.Store(x)
 		g.tr.deactDone.Add(1)
+		if g.tr.deactErr > 0 && a.No%g.tr.deactErr == 0 {
+			a.failed.Store(true)
+			return errors.New("c31 injected OnDeactivate failure")
+		}
 	}
 	return nil
 }
@@ -383,14 +408,15 @@ type c31Knobs struct {
 	Passivate time.Duration
 	Reentrant bool
 	Tick      time.Duration
+	DeactErr  int
 	Budget    int
 	Procs     int
 	Noise     int
 }
 
 func (k c31Knobs) String() string {
-	return fmt.Sprintf("mode=%s grains=%d s=%d n=%d ask%%=%d dwell=%d/%d/%d long=%v passivate=%v reentrant=%v tick=%v budget=%d procs=%d noise=%d",
-		k.Mode, k.Grains, k.Senders, k.PerSender, k.AskPct, k.DwellRecv, k.DwellDeact, k.DwellAct, k.LongRecv, k.Passivate, k.Reentrant, k.Tick, k.Budget, k.Procs, k.Noise)
+	return fmt.Sprintf("mode=%s grains=%d s=%d n=%d ask%%=%d dwell=%d/%d/%d long=%v passivate=%v reentrant=%v tick=%v deacterr=%d budget=%d procs=%d noise=%d",
+		k.Mode, k.Grains, k.Senders, k.PerSender, k.AskPct, k.DwellRecv, k.DwellDeact, k.DwellAct, k.LongRecv, k.Passivate, k.Reentrant, k.Tick, k.DeactErr, k.Budget, k.Procs, k.Noise)
 }
 
 func c31GenKnobs(rng *rand.Rand) c31Knobs {
@@ -412,6 +438,9 @@ func c31GenKnobs(rng *rand.Rand) c31Knobs {
 	}
 	if rng.Intn(3) == 0 {
 		k.Tick = time.Duration(1+rng.Intn(3)) * time.Millisecond
+	}
+	if rng.Intn(4) == 0 {
+		k.DeactErr = 2 + rng.Intn(2)
 	}
 	return k
 }
@@ -466,7 +495,7 @@ func c31RunCase(t *testing.T, caseNo int, k c31Knobs, seed int64) c31Obs {
 	var names []string
 	for g := 0; g < k.Grains; g++ {
 		name := fmt.Sprintf("c31g%dx%d", caseNo, g)
-		tr := &c31Track{name: name, reentrant: k.Reentrant, dwellRecv: k.DwellRecv, dwellDeact: k.DwellDeact, dwellAct: k.DwellAct, tick: k.Tick}
+		tr := &c31Track{name: name, reentrant: k.Reentrant, deactErr: k.DeactErr, dwellRecv: k.DwellRecv, dwellDeact: k.DwellDeact, dwellAct: k.DwellAct, tick: k.Tick}
 		if k.LongRecv {
 			tr.longRecv = 2 * k.Passivate
 		}
@@ -548,7 +577,7 @@ func c31RunCase(t *testing.T, caseNo int, k c31Knobs, seed int64) c31Obs {
 			}()
 			if ask {
 				var resp any
-				resp, err = sys.AskGrain(bg, idents[g], &c31Msg{ID: rec.ID, Ask: true}, callTimeout)
+				resp, err = sys.AskGrain(bg, idents[g], &c31Msg{ID: rec.ID, Ask: true, Start: rec.Start}, callTimeout)
 				if err == nil {
 					if rp, ok := resp.(*c31Reply); ok {
 						rec.ReplyID, rec.ReplyAct = rp.ID, rp.Act
@@ -558,7 +587,7 @@ func c31RunCase(t *testing.T, caseNo int, k c31Knobs, seed int64) c31Obs {
 				}
 			} else {
 				cctx, cancel := context.WithTimeout(bg, callTimeout)
-				err = sys.TellGrain(cctx, idents[g], &c31Msg{ID: rec.ID})
+				err = sys.TellGrain(cctx, idents[g], &c31Msg{ID: rec.ID, Start: rec.Start})
 				cancel()
 			}
 		}()
@@ -784,7 +813,8 @@ func c31RunCase(t *testing.T, caseNo int, k c31Knobs, seed int64) c31Obs {
 	obs.LiveOverlap = m.liveOver.Load()
 	m.mu.Lock()
 	for _, sig := range m.order {
-		obs.Viols = append(obs.Viols, m.viols[sig])
+		cp := *m.viols[sig] // a straggling hook may still bump the original's counter
+		obs.Viols = append(obs.Viols, &cp)
 	}
 	m.mu.Unlock()
 	if obs.StopErr != "" && obs.Inconclusive == "" {
